@@ -91,6 +91,22 @@ func c04ScriptedDownload(e *Env) {
 	// one run in four is fault-free: the peer serves exactly what it is asked for, nothing is duplicated; only time
 	// passes. Such an exchange can complete, so it has to - with the body the peer holds.
 	clean := t.Chance(1, 4)
+	// one run in four: one of the two representations is served without an ETag (a block without the tag its
+	// predecessors carried - or the other way round - cannot be told to belong to them, so it must not be appended)
+	if !clean && t.Chance(1, 4) {
+		if t.Chance(1, 2) {
+			etag1 = nil
+		} else {
+			etag2 = nil
+		}
+		e.Probe("download.oneRepresentationWithoutETag")
+	}
+	tagOpt := func(tag []byte) []WOpt {
+		if tag == nil {
+			return nil
+		}
+		return []WOpt{{Num: OptETag, Val: tag}}
+	}
 	cur, etag := v1, etag1
 	switched := false
 	peerUpload := false
@@ -157,7 +173,7 @@ func c04ScriptedDownload(e *Env) {
 				if hi > len(cur) {
 					hi = len(cur)
 				}
-				w.Queue(&WMsg{Type: TNON, Code: 0x45, MID: w.NextPeerMID(), Token: tok, Opts: []WOpt{{Num: OptETag, Val: etag}, UintOpt(OptBlock2, BlockOpt(num, hi < len(cur), sz))}, Payload: cur[lo:hi]}, "foreign-token-block")
+				w.Queue(&WMsg{Type: TNON, Code: 0x45, MID: w.NextPeerMID(), Token: tok, Opts: append(tagOpt(etag), UintOpt(OptBlock2, BlockOpt(num, hi < len(cur), sz))), Payload: cur[lo:hi]}, "foreign-token-block")
 				e.Fault("block.foreignToken")
 			}
 		case 4: // skip ahead
@@ -180,7 +196,7 @@ func c04ScriptedDownload(e *Env) {
 		if &cur[0] == &v2[0] {
 			cfv = 50
 		}
-		opts := []WOpt{{Num: OptETag, Val: etag}, {Num: OptContentFormat, Val: []byte{cfv}}, UintOpt(OptBlock2, BlockOpt(num, hi < len(cur), sz)), UintOpt(OptSize2, uint32(len(cur)))}
+		opts := append(tagOpt(etag), WOpt{Num: OptContentFormat, Val: []byte{cfv}}, UintOpt(OptBlock2, BlockOpt(num, hi < len(cur), sz)), UintOpt(OptSize2, uint32(len(cur))))
 		r := &WMsg{Type: TNON, Code: 0x45, MID: w.NextPeerMID(), Token: m.Token, Opts: opts, Payload: cur[lo:hi]}
 		if IsDatagram(tr) && m.Type == TCON {
 			r.Type, r.MID = TACK, m.MID
@@ -246,7 +262,7 @@ func c04ScriptedDownload(e *Env) {
 			}
 			hi := min(lo+bs, len(cur))
 			e.Fault("block.staleAfterCompletion")
-			it := w.Queue(&WMsg{Type: TNON, Code: 0x45, MID: w.NextPeerMID(), Token: reqTok, Opts: []WOpt{{Num: OptETag, Val: etag}, UintOpt(OptBlock2, BlockOpt(num, hi < len(cur), uint32(szx)))}, Payload: cur[lo:hi]}, fmt.Sprintf("stale block %d after the call returned", num))
+			it := w.Queue(&WMsg{Type: TNON, Code: 0x45, MID: w.NextPeerMID(), Token: reqTok, Opts: append(tagOpt(etag), UintOpt(OptBlock2, BlockOpt(num, hi < len(cur), uint32(szx)))), Payload: cur[lo:hi]}, fmt.Sprintf("stale block %d after the call returned", num))
 			e.Logf("peer->ep %s", it.Label)
 			w.Emit(it, false)
 			e.Wait()
@@ -314,7 +330,7 @@ func c04ScriptedDownload(e *Env) {
 			if cf, ok := resp.Opt(OptContentFormat); !ok || len(cf) != 1 || cf[0] != wantCF {
 				e.Violate("C04.R3", "options-of-another-representation:scripted-download", "the caller got representation v%d (%d bytes) with Content-Format %v; its blocks carried %d (etag switched=%v)", vi+1, len(v), cf, wantCF, switched)
 			}
-			if et, ok := resp.Opt(OptETag); !ok || !bytes.Equal(et, wantTag) {
+			if et, ok := resp.Opt(OptETag); (wantTag == nil && ok) || (wantTag != nil && (!ok || !bytes.Equal(et, wantTag))) {
 				e.Violate("C04.R3", "options-of-another-representation:scripted-download", "the caller got representation v%d (%d bytes) with ETag %x; its blocks carried %x", vi+1, len(v), et, wantTag)
 			}
 		}
@@ -331,7 +347,13 @@ func c04ScriptedDownload(e *Env) {
 				sig = "body-extended"
 			}
 		}
-		e.Violate("C04.R1", sig+":scripted-download", "the caller got a %d byte body that is neither representation the server ever held (v1 %d bytes, v2 %d bytes, block %d, etag switched=%v)", len(resp.Payload), len(v1), len(v2), bs, switched)
+		if switched && (etag1 == nil) != (etag2 == nil) {
+			// the one route on which this is known to happen (known_findings.json): the representation changed and only
+			// one of the two carries an ETag. Every other run keeps the general signatures.
+			sig = "blocks-with-and-without-etag-combined"
+			e.Probe("download.etagPresenceDiffers.mixed")
+		}
+		e.Violate("C04.R1", sig+":scripted-download", "the caller got a %d byte body that is neither representation the server ever held (v1 %d bytes tag %x, v2 %d bytes tag %x, block %d, etag switched=%v)", len(resp.Payload), len(v1), etag1, len(v2), etag2, bs, switched)
 	}
 }
 
